@@ -26,13 +26,108 @@ def param(name, *tags):
     return Sym(name, ("param", "array", "notnone") + tags)
 
 
-def mutation_findings(o):
+def _input_atoms(x, depth=0):
+    """Symbols of a stored value that are inputs of the running query (everything except receiver state)."""
+    from ..evalr import Lst
+    out = set()
+    if isinstance(x, Obj) and depth < 3:
+        for v in x.attrs.values():
+            out |= _input_atoms(v, depth + 1)
+    elif isinstance(x, (Lst,)) and depth < 3:
+        for v in x.items:
+            out |= _input_atoms(v, depth + 1)
+    elif hasattr(x, "key") and not isinstance(x, (Obj, Dct, FuncV)):
+        for a in atoms_of(x):
+            if isinstance(a, Sym) and a.tags and not ({"attr", "loopvar", "loopcarried", "draw"} & set(a.tags)):
+                out.add(a)
+    return out
+
+
+def _key_components(k):
+    if isinstance(k, Tup):
+        out = set()
+        for i in k.items:
+            out |= _key_components(i.value if isinstance(i, Star) else i)
+        return out
+    return {k}
+
+
+_REBIND_CACHE = {}
+
+
+def rebindable_attrs(db, ci):
+    """Attributes of instances of `ci` (or of a subclass) that some method other than __init__ re-binds: {attr: qualname of the writer}.
+    (FraudScores' alias setters re-bind pos/neg of a Scores.)"""
+    k = (id(db), ci.qualname)
+    if k in _REBIND_CACHE:
+        return _REBIND_CACHE[k]
+    out = {}
+    for mi in db.modules.values():
+        for c in mi.classes.values():
+            try:
+                related = ci in c.mro() or c in ci.mro()
+            except Exception:  # noqa: BLE001
+                related = False
+            if not related:
+                continue
+            for mname, m in list(c.methods.items()) + [(n_ + ".setter", f_) for n_, f_ in c.setters.items()]:
+                if mname == "__init__":
+                    continue
+                for node in ast.walk(m.node):
+                    tg = node.targets if isinstance(node, ast.Assign) else [node.target] if isinstance(node, (ast.AugAssign, ast.AnnAssign)) else []
+                    for t in tg:
+                        for x in ast.walk(t):
+                            if isinstance(x, ast.Attribute) and isinstance(x.value, ast.Name) and x.value.id == "self" and isinstance(x.ctx, ast.Store):
+                                out.setdefault(x.attr, c.qualname + "." + mname)
+    _REBIND_CACHE[k] = out
+    return out
+
+
+def memo_stale(db, e):
+    """Receiver attributes the stored value depends on that a public method re-binds later (the entry would go stale)."""
+    v = e.get("value")
+    deps = set()
+
+    def collect(x, depth=0):
+        if isinstance(x, Obj) and depth < 3:
+            for y in x.attrs.values():
+                collect(y, depth + 1)
+        elif hasattr(x, "key") and not isinstance(x, (Obj, Dct, FuncV)):
+            for a in atoms_of(x):
+                if isinstance(a, Sym) and "attr" in a.tags:
+                    deps.add(a.name)
+    collect(v)
+    rb = rebindable_attrs(db, e["obj"].cls)
+    writer_attr = e["attr"]
+    return sorted((a, rb[a]) for a in deps if a in rb and a != writer_attr)
+
+
+def memo_unsound(e):
+    """A per-object memo entry must be determined by its key: every query input the stored value depends on is a component
+    of the key itself (names, hashes, byte strings or sorted keyword names of an input do not determine it)."""
+    comps = _key_components(e["key"]) if hasattr(e["key"], "key") else set()
+    missing = sorted((a for a in _input_atoms(e.get("value")) if a not in comps), key=lambda a: a.key)
+    return missing
+
+
+def mutation_findings(o, strict=True, db=None):
     out = []
     for e in o.events:
         if e["kind"] == "inplace" and e["root"] is not None:
             out.append(("inplace", "%s of %s (storage of %s)" % (e["how"], e["target"], show(e["root"], 40)), e))
         elif e["kind"] == "attr_store" and not e["in_init"]:
+            if not strict and e.get("empty"):
+                continue  # creation of an empty memo table: judged by what is stored in it
             out.append(("attr-store", "self.%s re-bound" % e["attr"], e))
+        elif e["kind"] == "dict_store" and not e["in_init"] and not strict:
+            miss = memo_unsound(e)
+            stale = memo_stale(db, e) if db is not None else []
+            if stale and not miss:
+                out.append(("memo-stale", "memo self.%s: the stored value depends on self.%s, which %s re-binds without invalidating the entry"
+                            % (e["attr"], stale[0][0], stale[0][1]), e))
+            if miss:
+                out.append(("memo-key", "memo self.%s: the value stored under key %s depends on %s, which the key does not determine (a later call with another %s gets this entry)"
+                            % (e["attr"], show(e["key"], 60), ", ".join(show(a, 30) for a in miss[:3]), show(miss[0], 30)), e))
         elif e["kind"] == "dict_store" and not e["in_init"] and (e["obj"].cls.qualname, e["attr"]) not in TABLED_CACHES:
             out.append(("state-store", "entry stored into dict attribute self.%s (hidden per-object state)" % e["attr"], e))
         elif e["kind"] == "foreign_attr_store":
@@ -163,7 +258,26 @@ def run(ctx, chk, tier):
     shapes_and_aliases(ctx, chk)
 
 
-def purity(ctx, chk, only=None):
+def memo_rule(ctx, chk, outs, q, label, rule="R10.1"):
+    """Apply the memo soundness clauses (key determines value; no dependence on re-bindable receiver state) to explored outcomes."""
+    seen = set()
+    n = 0
+    for o in outs:
+        for kind, msg, e in mutation_findings(o, False, ctx.db):
+            if kind.startswith("memo") and (kind, msg) not in seen:
+                seen.add((kind, msg))
+                chk.violation(rule, q, "%s:%s:%s" % (label, kind, msg[:70]), msg, "a per-object memo entry is determined by its key and by state nothing re-binds",
+                              "%s line %s" % (ctx.where(q), getattr(e.get("node"), "lineno", "?")))
+        n += sum(1 for e in o.events if e["kind"] == "dict_store" and not e["in_init"])
+    if not seen:
+        chk.hold(rule, label + ":memo", "%d memo store(s) on %d path(s): each determined by its key" % (n, len(outs)), nontrivial=n > 0)
+
+
+def purity(ctx, chk, only=None, strict=None):
+    """strict (C10 itself): any hidden per-object state is a mutation of the object.  Non-strict (prerequisite of other
+    properties): a memo is accepted when its key determines the stored value (memo_unsound)."""
+    if strict is None:
+        strict = only is None
     n = 0
     for label, q, thunk in targets(ctx):
         if only is not None and not any(label.startswith(p_) for p_ in only):
@@ -177,7 +291,7 @@ def purity(ctx, chk, only=None):
         finds = []
         rng = []
         for o in outs:
-            finds += mutation_findings(o)
+            finds += mutation_findings(o, strict, ctx.db)
             rng += [e for e in o.events if e["kind"] == "rng"]
         seen = set()
         for kind, msg, e in finds:
